@@ -52,6 +52,7 @@ type UnitResult struct {
 
 type VerifyOpts struct {
 	Safety  bool
+	Bounds  bool // safety obligations without nil-dereference sites (protogen non-nil pointers are a trusted input invariant)
 	Events  bool
 	Timeout time.Duration
 	Only    func(name string) bool // filter obligations by name
@@ -95,7 +96,8 @@ func (w *World) VerifyFunc(fi *FuncInfo, c *Contract, opts VerifyOpts) (res *Uni
 	ex := NewExec(w, ctx)
 	ex.fi, ex.contract, ex.funcKey = fi, c, key
 	ex.info, ex.pkg = fi.Pkg.TypesInfo, fi.Pkg.Types
-	ex.safety, ex.traceEvents = opts.Safety, opts.Events
+	ex.safety, ex.traceEvents = opts.Safety || opts.Bounds, opts.Events
+	ex.boundsOnly = opts.Bounds && !opts.Safety
 	ex.oblCalls = true
 	sig := fi.Obj.Type().(*types.Signature)
 	ex.curFnSig = sig
@@ -127,6 +129,15 @@ func (w *World) VerifyFunc(fi *FuncInfo, c *Contract, opts VerifyOpts) (res *Uni
 		res.Unit = key
 		ex.funcKey = key
 	}
+	// loops are numbered in source order (function literals included), independent of the paths explored
+	ex.loopOrdinals = map[ast.Node]int{}
+	ast.Inspect(body, func(n ast.Node) bool {
+		switch n.(type) {
+		case *ast.RangeStmt, *ast.ForStmt:
+			ex.loopOrdinals[n] = len(ex.loopOrdinals) + 1
+		}
+		return true
+	})
 	defer func() {
 		if r := recover(); r != nil {
 			if u, ok := r.(unsupported); ok {
@@ -241,6 +252,18 @@ func (w *World) VerifyFunc(fi *FuncInfo, c *Contract, opts VerifyOpts) (res *Uni
 			}
 			if len(o.rets) == 1 {
 				q.names["result"] = o.rets[0]
+			}
+			// map parameters named in `modifies` are references: ensures see their final content, old() the entry content
+			for _, mname := range c.Modifies {
+				for obj, val := range q.vars {
+					if obj.Name() == mname {
+						if _, isMap := val.Ty.Underlying().(*types.Map); isMap {
+							if _, isParam := q.entry[mname]; isParam {
+								q.names[mname] = val
+							}
+						}
+					}
+				}
 			}
 			// hide current values of reassigned parameters: ensures talk about entry values
 			for k, v := range q.entry {
